@@ -25,14 +25,14 @@ import (
 
 func filterOutHLSParams(rawQuery string) string {
 	if rawQuery != "" {
-		if q, err := url.ParseQuery(rawQuery); err == nil {
-			for k := range q {
-				if strings.HasPrefix(k, "_HLS_") {
-					delete(q, k)
-				}
+		// like URL.Query(), use the pairs that could be parsed and drop the malformed ones
+		q, _ := url.ParseQuery(rawQuery)
+		for k := range q {
+			if strings.HasPrefix(k, "_HLS_") {
+				delete(q, k)
 			}
-			rawQuery = q.Encode()
 		}
+		rawQuery = q.Encode()
 	}
 	return rawQuery
 }
